@@ -73,7 +73,11 @@ HDR = ("From Coq Require Import String List Bool NArith.\n"
        "Import ListNotations.\n")
 # checkers that evaluate the generated algorithms / use the group tables
 HDRX = ("From Coq Require Import String List Bool NArith.\n"
-        "From V Require Import Model.Universe Model.Group Model.GroupX Model.GroupCheck Gen.Universes Gen.GroupGen Model.GroupXCheck.\n"
+        "From V Require Import Model.Universe Model.Group Model.GroupX Model.GroupCheck Gen.Universes Gen.GroupGen Model.GroupXGenCheck.\n"
+        "Import ListNotations.\n")
+# compact pair cases + group tables: hand model only (still evaluated when Gen/GroupGen.v cannot be regenerated)
+HDRT = ("From Coq Require Import String List Bool NArith Uint63.\n"
+        "From V Require Import Model.Universe Model.Group Model.GroupCheck Gen.Universes Model.GroupXCheck.\n"
         "Import ListNotations.\n")
 CHUNK = 64          # Model/GroupXCheck.v: lk
 
@@ -294,6 +298,17 @@ def corpus_subsets():
     return out
 
 
+def corpus_nary():
+    """[(universe, [names of a], [[names of other] ...])] from corpus/C12/*.json cases with an "others" key"""
+    out = []
+    for f in sorted((VERIF / "corpus" / "C12").glob("*.json")):
+        d = json.loads(f.read_text())
+        for c in d.get("cases", []):
+            if "others" in c and "a" in c:
+                out.append((c.get("universe", "current"), list(c["a"]), [list(o) for o in c["others"]]))
+    return out
+
+
 def check_universe(ctx: Ctx, ident: str, res, cases_univ):
     """(a) construction: model build vs real universe"""
     if "universe_error" in res:
@@ -457,7 +472,7 @@ def write_tables(ctx: Ctx, acc: Acc, N: Names) -> bool:
         body.append(f"Definition tbl_{ident} : table :=\n  " + clist(clist(N.lst(g) for g in ch) for ch in chunks) + ".")
         body.append(f"Definition tblr_{ident} : table := Eval vm_compute in required_table {uvar} tbl_{ident}.")
         body.append(f"Definition T_{ident} := ({uvar}, tbl_{ident}, tblr_{ident}).")
-    rc, out = ctx.coq_eval("tables", HDRX + "\n".join(body), "true", timeout=600)
+    rc, out = ctx.coq_eval("tables", HDRT + "\n".join(body), "true", timeout=600)
     if rc != 0:
         ctx.tie_broken("correspondence", "tables", f"the group tables could not be compiled: {out[-800:]}")
         return False
@@ -469,7 +484,7 @@ def evaluate_model(ctx: Ctx, acc: Acc):
     hdr = HDR + N.header()
     hdrx = HDRX + N.header()
     tables_ok = write_tables(ctx, acc, N) if acc.p else False
-    hdrp = HDRX + "From Coq Require Import Uint63.\nFrom V Require Import Cases.C12.tables.\n"
+    hdrp = HDRT + "From V Require Import Cases.C12.tables.\n"
     chk_ix = "chk_pair_t"
     for name, items, chk, shard, h in (("universes", acc.u, "chk_universe", 1, HDR), ("groups", acc.g, "chk_group", 900, hdr),
                                        ("conform", acc.c, "chk_conform", 200, hdr), ("pairs", acc.p, chk_ix, 8000, hdrp),
@@ -506,7 +521,8 @@ def payloads_for(ctx: Ctx, ident: str, path: Path, *, exhaustive: bool, nrandom:
     names += [{"name": e["name"], "kind": "governor" if e["governor"] else ("dimension" if e["keys"] else "combination")}
               for e in raw["elements"]]
     subs = list(extra_subsets) + random_subsets(ctx.rng, names, nrandom)
-    out = [dict(base, exhaustive=exhaustive, subsets=subs, conform_names=True, pairs=0 if slices else pairs, triples=triples, nary=nary, slice=0)]
+    out = [dict(base, exhaustive=exhaustive, subsets=subs, conform_names=True, pairs=0 if slices else pairs, triples=triples, nary=nary,
+                     nary_cases=[[a, o] for (uu, a, o) in corpus_nary() if uu == ident], slice=0)]
     for k in range(slices):
         out.append(dict(base, exhaustive=exhaustive, subsets=[], light=True, pairs=pairs, pair_slice=[k, slices], triples=0, slice=k + 1))
     return out
@@ -534,9 +550,9 @@ def run(ctx: Ctx):
     )
     gen_ok = ctx.regen("universe", tr.translate)
     algo_ok = ctx.regen("group_algo", ga.translate)
-    props_ok = ctx.build_props(extra_targets=["Model/GroupCheck.vo", "Model/GroupXCheck.vo"])
+    props_ok = ctx.build_props(extra_targets=["Model/GroupCheck.vo", "Model/GroupXCheck.vo", "Model/GroupXGenCheck.vo"])
     if not props_ok:
-        coq_make(["Model/GroupCheck.vo", "Gen/Universes.vo", "Model/GroupXCheck.vo"])
+        coq_make(["Model/GroupCheck.vo", "Gen/Universes.vo", "Model/GroupXCheck.vo", "Model/GroupXGenCheck.vo"])
     try:
         srcs = tr.sources()
     except Exception as e:  # noqa: BLE001
@@ -634,6 +650,7 @@ def _replay(ctx: Ctx, srcs):
     subs += [x for x in rep.get("others", []) if isinstance(x, list)]
     st, r = run_worker("c12_impl", "observe", {"path": str(path), "default": ident == "current", "subsets": subs,
                                                 "conform_names": isinstance(rep.get("in"), str), "pairs": "all", "triples": 30, "nary": 30,
+                                                "nary_cases": [[rep["a"], rep["others"]]] if isinstance(rep.get("others"), list) and isinstance(rep.get("a"), list) else [],
                                                 "seed": ctx.seed}, timeout=300)
     if st == "hang":
         ctx.oracle_fail("worker:hang", rep, "the implementation did not return")
